@@ -125,6 +125,9 @@ pub struct SimCtx {
     pub clock_seed: u64,
     /// start-order seam for threads this process creates (see `ThreadGroup`)
     pub threads: Option<Arc<ThreadGroup>>,
+    pub threads_created: u32,
+    /// the nth thread creation of this process is refused with EAGAIN
+    pub thread_fail: Option<u32>,
     in_shim: bool,
 }
 
@@ -146,6 +149,8 @@ impl SimCtx {
             clock_mode: 0,
             clock_seed: 0,
             threads: None,
+            threads_created: 0,
+            thread_fail: None,
             log: Vec::new(),
             fired: Vec::new(),
             gate: None,
@@ -455,6 +460,18 @@ pub unsafe extern "C" fn pthread_create(
     let real: PthreadCreate = unsafe { std::mem::transmute(real) };
     if let Some(c) = ctx() {
         SEEN_CHILD_THREADS.fetch_add(1, Ordering::Relaxed);
+        // fault: the system refuses the nth thread this process asks for (EAGAIN: out of
+        // memory for the stack, or a limit on the number of threads)
+        let nth = c.threads_created;
+        c.threads_created += 1;
+        let refused = c.thread_fail == Some(nth);
+        let seq = c.seq;
+        let pid = c.pid;
+        c.log.push(Event { seq, pid, call: "thread", path: String::new(), req: nth as i64, res: if refused { -(libc::EAGAIN as i64) } else { 0 }, fault: if refused { Some("pthread_create:EAGAIN".to_string()) } else { None } });
+        if refused {
+            c.fired.push("pthread_create:EAGAIN".to_string());
+            return libc::EAGAIN;
+        }
         let seed = c.entropy.next_u64();
         let group = c.threads.get_or_insert_with(ThreadGroup::new).clone();
         // the priority comes from a stream of its own (derived from the child's seed), so the
